@@ -361,7 +361,8 @@ class SimClient:
             msg = {'jsonrpc': '2.0', 'id': rid, 'method': method, 'params': params
                    if isinstance(params, dict) else list(params)}
             raw = json.dumps(msg).encode()
-        self.sent[rid] = dict(method=method, params=params, ev=self.sim.steps, t=self.sim.now)
+        self.sent[rid] = dict(method=method, params=params, ev=self.sim.steps, t=self.sim.now,
+                              conn=self.connects)
         if cb is not None:
             self.on_reply[rid] = cb
         self.sim.log('C>', self.name, rid, method)
@@ -440,4 +441,5 @@ class SimClient:
                               t=self.sim.now))
 
     def pending(self):
-        return [rid for rid in self.sent if rid not in self.replies]
+        return [rid for rid, r in self.sent.items() if rid not in self.replies
+                and r['conn'] == self.connects]
